@@ -69,6 +69,8 @@ def eval_case(case) -> Outcome:
         out.labels.add("multi-zone")
     if case.get("utilities"):
         out.labels.add("utilities-given")
+    if case.get("zone_tree"):
+        out.labels.add("explicit-zone-tree")
     n_checked = 0
     for path, zone in S.walk(master):
         key = f"{zone.name}/{S.DI}"
@@ -130,6 +132,31 @@ def eval_case(case) -> Outcome:
     return out
 
 
+@st.composite
+def with_explicit_tree(draw, base):
+    """Same problem with a user zone tree spelling out the synthesised hierarchy (process zones only)."""
+    case = draw(base)
+    root = {"name": "Site", "type": "Site", "children": []}
+    nodes = {(): root}
+    for s in case["streams"]:
+        lp = S.label_path(s["zone"])
+        for k in range(1, len(lp) + 1):
+            if lp[:k] not in nodes:
+                node = {"name": lp[k - 1], "type": "Process Zone", "children": []}
+                nodes[lp[:k]] = node
+                nodes[lp[: k - 1]]["children"].append(node)
+    # a labelled node must be a leaf (C10 owns labels on non-leaf nodes)
+    labelled = {S.label_path(s["zone"]) for s in case["streams"]}
+    if any(len(nodes[p]["children"]) > 0 for p in labelled):
+        return case
+
+    def clean(n):
+        return {"name": n["name"], "type": n["type"], "children": [clean(c) for c in n["children"]] or None}
+
+    case["zone_tree"] = clean(root)
+    return case
+
+
 def strategy(tier):
     mx = 8 if tier == "quick" else 12
     opts = st.sampled_from([None, None, None, {"DO_DIRECT_OPERATION_TARGETING": True}])
@@ -140,6 +167,7 @@ def strategy(tier):
         G.problem(max_streams=mx, with_utilities=False, options=opts),
         G.problem(min_streams=2, max_streams=mx, multi_zone=True, options=opts),
         G.problem(min_streams=2, max_streams=5, iso_share=0.5, with_utilities=False),
+        with_explicit_tree(G.problem(min_streams=2, max_streams=mx, multi_zone=True)),
     )
 
 
